@@ -996,13 +996,11 @@ func runCase(run *vh.Run, schema *sqlgen.Schema, idx int, c Case) *obs {
 					}
 				} else {
 					// not representable (excluded class, or precision the column/decoder drops): hand the driver value
-					// back unchanged, as a fake driver or the protobuf path would
-					s = dv
+					// back unchanged, as the protobuf path or a driver that does not convert would (model: PProto)
+					s, h = dv, &how{col, "PProto"}
+					run.Hist("repr:passthrough/PProto")
 					if !ok && excluded[i] == "" {
 						run.Hist("excluded:" + col.kind + "/" + p + "-cannot-hold-value")
-					}
-					if excluded[i] != "" {
-						inDomain = false
 					}
 				}
 			}
@@ -1073,7 +1071,9 @@ func runCase(run *vh.Run, schema *sqlgen.Schema, idx int, c Case) *obs {
 			run.Hist("binlog:wrong-column-count")
 		}
 		var perr error
-		if p := safely(func() { ro.parsed, perr = livesql.VerifParseBinlogRow(tbl, cloneRowI(ro.binlog), ro.expected, ro.source) }); p != "" {
+		if p := safely(func() {
+			ro.parsed, perr = livesql.VerifParseBinlogRow(tbl, cloneRowI(ro.binlog), ro.expected, ro.source)
+		}); p != "" {
 			run.Fail(idx, "parse-binlog-row-panic", p, c)
 			ob.failed = true
 			return ob
